@@ -335,6 +335,19 @@ func runC11(c *Ctx, pr *PropertyRun) {
 	c11Accounting(c, pr)
 	propSetTables(c, pr, "C11", []string{pkgWebdav, pkgCaldav, pkgCarddav})
 	freshPropTableRule(c, pr, "C11")
+	// which resources are in scope depends on the level the request path is
+	// classified at (shared with C12.classifier)
+	c12Classifier(c, pr, "C11")
+	// the body is well-formed, namespace-correct XML: the structs it is
+	// marshalled from agree with the RFC element tables and write no
+	// unescaped text (shared with C10.schema)
+	{
+		sch := NewRule("C11", "C11.schema", "every wire struct of internal, webdav, caldav and carddav agrees with the RFC element tables (names, namespaces, attributes, children), EMPTY elements are presence-typed, and no field is written unescaped (,innerxml) (E6)")
+		pr.Rules = append(pr.Rules, sch)
+		checkSchema(p, sch, func(xs *xmlStruct) bool { return !strings.HasPrefix(xs.Named.Obj().Name(), "zzVerifControl") }, nil, nil)
+		sch.RequireRole("wire-struct", "child-element")
+	}
+	addressableMarshalersRule(c, pr, "C11")
 	// property functions are run long after the table was built
 	loopCaptureRule(c, pr, "C11")
 
@@ -864,7 +877,7 @@ func runC12(c *Ctx, pr *PropertyRun) {
 		"(7) the classifier's shape: with path.Clean, strings.TrimPrefix and strings.Split as uninterpreted functions, the level is 0 for \"/\" and otherwise len(Split(P, \"/\"))-1 for P = the cleaned path with the prefix taken off and a leading slash ensured. NOT decided: what path.Clean, TrimPrefix and Split return on particular strings (all prefixes and spellings) — values at run time."
 	pr.Assumptions = append(pr.Assumptions, "path.Clean, strings.TrimPrefix and strings.Split behave as documented (they are uninterpreted in the classifier table)")
 	pr.Trusted = append(pr.Trusted, "golang.org/x/tools/go/ssa v0.29.0")
-	c12Classifier(c, pr)
+	c12Classifier(c, pr, "C12")
 	davScopeTables(c, pr, "C12", false)
 	// the paths of the discovery chain are decoded strings: they reach the
 	// next request as they are (shared with C05.no-reparse)
@@ -1116,6 +1129,37 @@ func c12PrefixTrim(c *Ctx, pr *PropertyRun) {
 				r.Ob(ok)
 				if !ok {
 					r.Violation("prefix-not-trimmed|"+fnKey(fn), p.instrPos(st), fnKey(fn)+" builds a backend adapter whose Prefix is not strings.TrimSuffix(h.Prefix, \"/\"): with a trailing-slash prefix every path is classified one level off", nil)
+				}
+			})
+			// ... and every adapter value has one: an adapter built without a
+			// prefix classifies every path against the empty prefix
+			eachInstr(fn, func(_ *ssa.BasicBlock, in ssa.Instruction) {
+				al, ok := in.(*ssa.Alloc)
+				if !ok || bt == nil || namedOf(al.Type().(*types.Pointer).Elem()) != bt {
+					return
+				}
+				r.Role("adapter-value")
+				has := false
+				whole := false
+				for _, ref := range refsOf(al) {
+					switch x := ref.(type) {
+					case *ssa.FieldAddr:
+						if fieldName(x.X.Type(), x.Field) == "Prefix" {
+							for _, r2 := range refsOf(x) {
+								if st, ok := r2.(*ssa.Store); ok && st.Addr == ssa.Value(x) {
+									has = true
+								}
+							}
+						}
+					case *ssa.Store:
+						if x.Addr == ssa.Value(al) {
+							whole = true // a copy of another adapter value
+						}
+					}
+				}
+				r.Ob(has || whole)
+				if !has && !whole {
+					r.Violation("adapter-without-prefix|"+fnKey(fn), p.instrPos(al), fnKey(fn)+" builds a backend adapter without a Prefix: whatever it classifies is classified against the empty prefix, one or more levels off under any mount prefix", nil)
 				}
 			})
 		}
